@@ -331,11 +331,13 @@ class Result:
             self.samples.append(sample)
 
     def violation(self, what: str, case, impl=None, model=None, finding_key=None, clause=None):
-        if len(self.violations) < 50:
+        if len(self.violations) < 400:
             self.violations.append({"what": what, "clause": clause, "input": case, "implementation": impl, "model": model,
                                     "finding_key": finding_key})
 
     def done(self) -> dict:
+        # smallest failing input first: it is the one reported and stored as replay
+        self.violations.sort(key=lambda v: len(json.dumps(v.get("input"), default=str)))
         return {"evaluations": self.evaluations, "distinct_nontrivial": len(self.nontrivial), "rule": self.rule,
                 "samples": self.samples, "violations": self.violations, "distribution": self.distribution,
                 "skipped": self.skipped}
